@@ -8,11 +8,13 @@ spec->impl: MC_C11 enumerates (a) every digraph on 3 (quick) / 4 (thorough) node
 impl->spec: random programs up to 12 items (DAGs and cyclic graphs) with random placements; all events are judged by
             Trace_C11 (Topsort!OrderOk / IntervalOk).
 """
+import os
+
 from .. import common, render
 from ..common import ToolError
 from ..extract import go as x_go, kt as x_kt, py as x_py, swift as x_swift, ts as x_ts
 
-NEEDS = ["driver"]
+NEEDS = ["driver", "cli"]
 LANGS = {"typescript": x_ts, "kotlin": x_kt, "swift": x_swift, "go": x_go, "python": x_py}
 CFG = {"typescript": {}, "kotlin": {"package": "com.x"}, "swift": {}, "go": {"package": "p"}, "python": {}}
 
@@ -168,6 +170,50 @@ def run_programs(chk, programs):
     return events, emeta
 
 
+def run_programs_cli(chk, programs, mode):
+    """the same programs through the REAL BINARY (single-file output, or folder output: one crate, one module): the binary prepares the
+    parsed data on its own way before it hands them to the backends (imports table, crate names), the library driver does not"""
+    import concurrent.futures as cf
+    from .. import cli
+    work = common.scratch("c11cli")
+    args_for = {"typescript": [], "kotlin": ["--java-package", "com.x"], "swift": [], "go": ["--go-package", "p"], "python": [], "scala": ["--scala-package", "com.x"]}
+    todo = []
+    for pi, (nodes, edges, tag) in enumerate(programs):
+        items, nodes2, edges2 = build_program(nodes, edges)
+        src = render.program(items)
+        for lang in LANGS:
+            if lang in ("kotlin", "swift") and any(n["kind"] == "const" for n in nodes2):
+                continue
+            todo.append((pi, lang, nodes2, edges2, items, src, tag))
+
+    def one(t):
+        pi, lang, nodes2, edges2, items, src, tag = t
+        d = os.path.join(work, f"p{pi}{lang}{mode}")
+        cli.make_tree(d, {"cratex/src/lib.rs": src})
+        out = os.path.join(d, "out")
+        os.makedirs(out)
+        dest = ["-o", os.path.join(out, "out." + common.EXT[lang])] if mode == "single" else ["-d", out]
+        r = cli.run_cli(["-l", lang] + args_for[lang] + dest + [os.path.join(d, "cratex")], timeout=20)
+        text = None
+        if r["exit"] == "ok":
+            fs = [f for f in sorted(os.listdir(out)) if f != "Codable.swift"]
+            text = open(os.path.join(out, fs[0])).read() if fs else ""
+        return t, r, text
+
+    events, emeta = [], []
+    with cf.ThreadPoolExecutor(max_workers=12) as ex:
+        for (pi, lang, nodes2, edges2, items, src, tag), r, text in ex.map(one, todo):
+            if text is None:
+                continue          # a refusal / panic / hang: C03 / C07 / C08
+            try:
+                count, start, mainpos = positions(lang, text, nodes2, items)
+            except Exception:  # noqa  (C10)
+                continue
+            events.append({"ev": "prog", "n": len(nodes2), "edges": [[e["src"] + 1, e["dst"] + 1] for e in edges2], "count": count, "start": start, "main": mainpos})
+            emeta.append((lang + "+cli-" + mode, nodes2, edges2, src, tag, text))
+    return events, emeta
+
+
 def sig_for(lang, nodes, edges, count, start, mainpos):
     """Which written reference is violated (abstract features only)."""
     sigs = []
@@ -312,6 +358,9 @@ def run(chk):
                                  {"src": 0, "dst": second, "carrier": c["carrier"], "wrapper": c["w2"], "ovr": "none", "same_variant": c["carrier"] == "vfield"}], None))
     events, emeta = run_programs(chk, programs)
     validate(chk, events, emeta, "two-references")
+    for mode in ("single", "folder"):          # ... and through the real binary, both output modes
+        events, emeta = run_programs_cli(chk, programs[::2] if not thorough else programs, mode)
+        validate(chk, events, emeta, "two-references[cli-" + mode + "]")
 
     # (e) long chains (MC_C11!ChainLens): through the real toposort_impl as a path graph, and as a program of aliases
     events, emeta, programs = [], [], []
